@@ -8,6 +8,7 @@ from ..dsl import H, execute, jsonable
 from ..evidence import Acc, hk
 
 PID = "C04"
+BOTH_CONSTRUCTION_PATHS = True  # every program once with constructor-built and once with decorator-built nodes (mc/dsl.py VIA)
 LEVEL = "model_checking"
 TECHNIQUE = "bounded-exhaustive exploration of loop programs on the real runners: all loop templates x iteration counts, ALL gate decision sequences up to depth D, ALL max_iterations values up to M, against a sequential while / do-while reference; step counts observed through the superstep seam"
 LEVEL_TEXT = (
